@@ -40,6 +40,9 @@ pub enum StepOutcome {
 
 struct Inner {
     states: Vec<TState>,
+    /// has the thread picked up its current grant (left its park loop)?  A thread that has not
+    /// been scheduled by the OS yet is not "blocked in the implementation".
+    picked: Vec<bool>,
     /// which thread may run (None = nobody)
     grant: Option<usize>,
 }
@@ -57,7 +60,7 @@ thread_local! {
 impl Scheduler {
     pub fn new(n: usize) -> Arc<Scheduler> {
         Arc::new(Scheduler {
-            inner: Mutex::new(Inner { states: vec![TState::NotStarted; n], grant: None }),
+            inner: Mutex::new(Inner { states: vec![TState::NotStarted; n], picked: vec![false; n], grant: None }),
             cv: Condvar::new(),
             block_timeout: Duration::from_millis(60),
         })
@@ -83,6 +86,7 @@ impl Scheduler {
             g = self.cv.wait(g).unwrap();
         }
         g.states[id] = TState::Running;
+        g.picked[id] = true;
     }
 
     /// Spawn logical thread `id`.  The thread parks before running `f` until first scheduled.
@@ -96,6 +100,7 @@ impl Scheduler {
                 me.cv.notify_all();
                 while g.grant != Some(id) { g = me.cv.wait(g).unwrap(); }
                 g.states[id] = TState::Running;
+                g.picked[id] = true;
             }
             let r = std::panic::catch_unwind(std::panic::AssertUnwindSafe(f));
             let mut g = me.inner.lock().unwrap();
@@ -127,8 +132,9 @@ impl Scheduler {
         }
         g.grant = Some(id);
         g.states[id] = TState::Running;
+        g.picked[id] = false;
         self.cv.notify_all();
-        let deadline = Instant::now() + self.block_timeout;
+        let mut deadline = Instant::now() + self.block_timeout;
         loop {
             match g.states[id] {
                 TState::AtSite(s) if g.grant != Some(id) => return StepOutcome::Reached(s),
@@ -136,6 +142,14 @@ impl Scheduler {
                 _ => {}
             }
             let now = Instant::now();
+            if !g.picked[id] {
+                // the OS has not run the thread yet: its grant must not be overwritten, and the
+                // blocking timeout only starts once the thread has actually resumed
+                deadline = now + self.block_timeout;
+                let (ng, _) = self.cv.wait_timeout(g, self.block_timeout).unwrap();
+                g = ng;
+                continue;
+            }
             if now >= deadline {
                 // leave the grant with the thread: it keeps running when it gets unblocked,
                 // and parks at its next site
